@@ -2,25 +2,44 @@ package PVM
 
 import (
 	"encoding/binary"
-	"errors"
 	"fmt"
 
 	"github.com/New-JAMneration/JAM-Protocol/internal/types"
 	utils "github.com/New-JAMneration/JAM-Protocol/internal/utilities"
 )
 
+// zetaByte returns ζ[i]: the instruction data implicitly extended with zeros (GP A.2).
+func zetaByte(instructionCode []byte, i ProgramCounter) byte {
+	if int(i) < len(instructionCode) {
+		return instructionCode[i]
+	}
+	return 0
+}
+
+// zetaBytes returns ζ[start:start+n] over the zero-extended instruction data (GP A.2).
+func zetaBytes(instructionCode []byte, start ProgramCounter, n ProgramCounter) []byte {
+	if uint64(start)+uint64(n) <= uint64(len(instructionCode)) {
+		return instructionCode[start : start+n]
+	}
+	out := make([]byte, n)
+	if int(start) < len(instructionCode) {
+		copy(out, instructionCode[start:])
+	}
+	return out
+}
+
 func getRegModIndex(instructionCode []byte, pc ProgramCounter) uint8 {
-	return min(12, (instructionCode[pc+1])%16)
+	return min(12, zetaByte(instructionCode, pc+1)%16)
 }
 
 func getRegFloorIndex(instructionCode []byte, pc ProgramCounter) uint8 {
-	return min(12, (instructionCode[pc+1])>>4)
+	return min(12, zetaByte(instructionCode, pc+1)>>4)
 }
 
 // A.5.2
 func decodeOneImmediate(instructionCode []byte, pc ProgramCounter, skipLength ProgramCounter) (int, error) {
 	lX := min(4, skipLength)
-	immediateData := instructionCode[pc+1 : pc+lX+1]
+	immediateData := zetaBytes(instructionCode, pc+1, lX)
 	immediate, _, err := ReadUintSignExtended(immediateData, len(immediateData))
 	if err != nil {
 		return 0, err
@@ -35,9 +54,9 @@ func decodeOneRegisterAndOneExtendedWidthImmediate(instructionCode []byte, pc Pr
 
 // A.5.4
 func decodeTwoImmediates(instructionCode []byte, pc ProgramCounter, skipLength ProgramCounter) (uint64, uint64, error) {
-	lX := ProgramCounter(min(4, uint8(instructionCode[pc+1])))
+	lX := ProgramCounter(min(4, uint8(zetaByte(instructionCode, pc+1))))
 
-	decodedVX, err := utils.DeserializeFixedLength(instructionCode[pc+2:pc+2+lX], types.U64(lX))
+	decodedVX, err := utils.DeserializeFixedLength(zetaBytes(instructionCode, pc+2, lX), types.U64(lX))
 	if err != nil {
 		return 0, 0, fmt.Errorf("opcode %s(%d) at pc=%d deserialize vx raise error : %w", zeta[opcode(instructionCode[pc])], opcode(instructionCode[pc]), pc, err)
 	}
@@ -48,7 +67,7 @@ func decodeTwoImmediates(instructionCode []byte, pc ProgramCounter, skipLength P
 	}
 
 	lY := min(4, max(0, skipLength-lX-1))
-	decodedVy, err := utils.DeserializeFixedLength(instructionCode[pc+2+lX:pc+2+lX+lY], types.U64(lY))
+	decodedVy, err := utils.DeserializeFixedLength(zetaBytes(instructionCode, pc+2+lX, lY), types.U64(lY))
 	if err != nil {
 		return 0, 0, fmt.Errorf("opcosde %s(%d) at pc=%d deserialization vy raise error : %w", zeta[opcode(instructionCode[pc])], opcode(instructionCode[pc]), pc, err)
 	}
@@ -64,7 +83,7 @@ func decodeTwoImmediates(instructionCode []byte, pc ProgramCounter, skipLength P
 // returns vX
 func decodeOneOffset(instructionCode []byte, pc ProgramCounter, skipLength ProgramCounter) (ProgramCounter, error) {
 	lX := min(4, skipLength)
-	offsetData := instructionCode[pc+1 : pc+1+lX]
+	offsetData := zetaBytes(instructionCode, pc+1, lX)
 	offset, _, err := ReadIntFixed(offsetData, len(offsetData))
 	if err != nil {
 		return 0, err
@@ -76,10 +95,10 @@ func decodeOneOffset(instructionCode []byte, pc ProgramCounter, skipLength Progr
 // A.5.6
 // returns rA, vX
 func decodeOneRegisterAndOneImmediate(instructionCode []byte, pc ProgramCounter, skipLength ProgramCounter) (uint8, uint64, error) {
-	rA := min(12, instructionCode[pc+1]%16)
+	rA := min(12, zetaByte(instructionCode, pc+1)%16)
 	lX := min(4, max(0, skipLength-1))
 
-	immediateData := instructionCode[pc+2 : pc+2+lX]
+	immediateData := zetaBytes(instructionCode, pc+2, lX)
 	immediate, _, err := ReadUintSignExtended(immediateData, len(immediateData))
 	if err != nil {
 		pvmLogger.Errorf("opcode %s at instruction %d deserialize vy raise error : %s", zeta[opcode(instructionCode[pc])], pc, err)
@@ -91,10 +110,10 @@ func decodeOneRegisterAndOneImmediate(instructionCode []byte, pc ProgramCounter,
 
 // A.5.7
 func decodeOneRegisterAndTwoImmediates(instructionCode []byte, pc ProgramCounter, skipLength ProgramCounter) (int8, uint64, uint64, error) {
-	rA := int8(min(12, instructionCode[pc+1]%16))
-	lX := min(4, ProgramCounter(uint8((instructionCode[pc+1] >> 4))))
+	rA := int8(min(12, zetaByte(instructionCode, pc+1)%16))
+	lX := min(4, ProgramCounter(uint8((zetaByte(instructionCode, pc+1) >> 4))))
 	pcMargin := pc + 2 + lX
-	decodedVX, err := utils.DeserializeFixedLength(instructionCode[pc+2:pcMargin], types.U64(lX))
+	decodedVX, err := utils.DeserializeFixedLength(zetaBytes(instructionCode, pc+2, lX), types.U64(lX))
 	if err != nil {
 		return 0, 0, 0, fmt.Errorf("opcode %s(%d) at pc=%d deserialize vx raise error : %w", zeta[opcode(instructionCode[pc])], opcode(instructionCode[pc]), pc, err)
 	}
@@ -104,7 +123,7 @@ func decodeOneRegisterAndTwoImmediates(instructionCode []byte, pc ProgramCounter
 	}
 
 	lY := min(4, max(0, skipLength-lX-1))
-	decodedVY, err := utils.DeserializeFixedLength(instructionCode[pcMargin:pcMargin+lY], types.U64(lY))
+	decodedVY, err := utils.DeserializeFixedLength(zetaBytes(instructionCode, pcMargin, lY), types.U64(lY))
 	if err != nil {
 		return 0, 0, 0, fmt.Errorf("opcode %s(%d) at pc=%d deserialize vy raise error : %w", zeta[opcode(instructionCode[pc])], opcode(instructionCode[pc]), pc, err)
 	}
@@ -119,17 +138,17 @@ func decodeOneRegisterAndTwoImmediates(instructionCode []byte, pc ProgramCounter
 // A.5.8
 // returns rA, vX, vY
 func decodeOneRegisterOneImmediateAndOneOffset(instructionCode []byte, pc ProgramCounter, skipLength ProgramCounter) (uint8, uint64, ProgramCounter, error) {
-	rA := min(12, instructionCode[pc+1]%16)
-	lX := ProgramCounter(min(4, (instructionCode[pc+1]>>4)%8))
+	rA := min(12, zetaByte(instructionCode, pc+1)%16)
+	lX := ProgramCounter(min(4, (zetaByte(instructionCode, pc+1)>>4)%8))
 	lY := min(4, max(0, skipLength-lX-1))
 
-	immediateData := instructionCode[pc+2 : pc+2+lX]
+	immediateData := zetaBytes(instructionCode, pc+2, lX)
 	immediate, _, err := ReadUintSignExtended(immediateData, len(immediateData))
 	if err != nil {
 		return 0, 0, 0, err
 	}
 
-	offsetData := instructionCode[pc+2+lX : pc+2+lX+lY]
+	offsetData := zetaBytes(instructionCode, pc+2+lX, lY)
 	offset, _, err := ReadIntFixed(offsetData, len(offsetData))
 	if err != nil {
 		return 0, 0, 0, err
@@ -140,19 +159,16 @@ func decodeOneRegisterOneImmediateAndOneOffset(instructionCode []byte, pc Progra
 
 // A.5.9
 func decodeTwoRegisters(instructionCode []byte, pc ProgramCounter) (rD uint8, rA uint8, err error) {
-	if int(pc+1) >= len(instructionCode) {
-		return 0, 0, errors.New("pc out of bound")
-	}
 	rD = getRegModIndex(instructionCode, pc)
 	rA = getRegFloorIndex(instructionCode, pc)
 	return rD, rA, nil
 }
 
 func decodeTwoRegistersAndOneImmediate(instructionCode []byte, pc ProgramCounter, skipLength ProgramCounter) (uint8, uint8, uint64, error) {
-	rA := min(12, instructionCode[pc+1]&15)
-	rB := min(12, instructionCode[pc+1]>>4)
+	rA := min(12, zetaByte(instructionCode, pc+1)&15)
+	rB := min(12, zetaByte(instructionCode, pc+1)>>4)
 	lX := min(4, max(0, skipLength-1))
-	decodedVX, err := utils.DeserializeFixedLength(instructionCode[pc+2:pc+2+lX], types.U64(lX))
+	decodedVX, err := utils.DeserializeFixedLength(zetaBytes(instructionCode, pc+2, lX), types.U64(lX))
 	if err != nil {
 		return 0, 0, 0, fmt.Errorf("opcode %s(%d) at pc=%d deserialization error : %w", zeta[opcode(instructionCode[pc])], opcode(instructionCode[pc]), pc, err)
 	}
@@ -167,11 +183,11 @@ func decodeTwoRegistersAndOneImmediate(instructionCode []byte, pc ProgramCounter
 // A.5.11
 // returns rA, rB, vX
 func decodeTwoRegistersAndOneOffset(instructionCode []byte, pc ProgramCounter, skipLength ProgramCounter) (uint8, uint8, ProgramCounter, error) {
-	rA := min(12, instructionCode[pc+1]%16)
-	rB := min(12, instructionCode[pc+1]>>4)
+	rA := min(12, zetaByte(instructionCode, pc+1)%16)
+	rB := min(12, zetaByte(instructionCode, pc+1)>>4)
 	lX := min(4, max(0, skipLength-1))
 
-	offsetData := instructionCode[pc+2 : pc+2+lX]
+	offsetData := zetaBytes(instructionCode, pc+2, lX)
 	offset, _, err := ReadIntFixed(offsetData, len(offsetData))
 	if err != nil {
 		return 0, 0, 0, err
@@ -183,18 +199,18 @@ func decodeTwoRegistersAndOneOffset(instructionCode []byte, pc ProgramCounter, s
 // A.5.12
 // returns rA, rB, vX, vY
 func decodeTwoRegistersAndTwoImmediates(instructionCode []byte, pc ProgramCounter, skipLength ProgramCounter) (uint8, uint8, uint64, uint64, error) {
-	rA := min(12, instructionCode[pc+1]%16)
-	rB := min(12, instructionCode[pc+1]>>4)
-	lX := ProgramCounter(min(4, instructionCode[pc+2]%8))
+	rA := min(12, zetaByte(instructionCode, pc+1)%16)
+	rB := min(12, zetaByte(instructionCode, pc+1)>>4)
+	lX := ProgramCounter(min(4, zetaByte(instructionCode, pc+2)%8))
 	lY := min(4, max(0, skipLength-lX-2))
 
-	vXData := instructionCode[pc+3 : pc+3+lX]
+	vXData := zetaBytes(instructionCode, pc+3, lX)
 	vX, _, err := ReadUintFixed(vXData, len(vXData))
 	if err != nil {
 		return 0, 0, 0, 0, err
 	}
 
-	vYData := instructionCode[pc+3+lX : pc+3+lX+lY]
+	vYData := zetaBytes(instructionCode, pc+3+lX, lY)
 	vY, _, err := ReadUintFixed(vYData, len(vYData))
 	if err != nil {
 		return 0, 0, 0, 0, err
@@ -205,12 +221,9 @@ func decodeTwoRegistersAndTwoImmediates(instructionCode []byte, pc ProgramCounte
 
 // A.5.13
 func decodeThreeRegisters(instructionCode []byte, pc ProgramCounter) (rA uint8, rB uint8, rD uint8, err error) {
-	if int(pc+2) >= len(instructionCode) {
-		return 0, 0, 0, errors.New("pc out of bound")
-	}
 	rA = getRegModIndex(instructionCode, pc)
 	rB = getRegFloorIndex(instructionCode, pc)
-	rD = min(12, instructionCode[pc+2])
+	rD = min(12, zetaByte(instructionCode, pc+2))
 	return rA, rB, rD, nil
 }
 
